@@ -38,7 +38,14 @@ def run_one(prop, tier, seed, shard, nshards):
     logging.disable(logging.CRITICAL)     # the library logs every dropped packet
     mod = importlib.import_module(f'nvf.{prop.lower()}')
     ctx = common.Ctx(prop, tier, seed, shard, nshards, level=getattr(mod, 'LEVEL', 'exploration'))
-    mod.run(ctx)
+    try:
+        mod.run(ctx)
+    except Exception as e:   # noqa
+        # the harness itself failed (typically because the code under test returned something the harness could not
+        # digest): that is neither "held" nor a witnessed violation
+        import traceback
+        tb = traceback.format_exc()
+        ctx.inconclusive(f'harness exception {type(e).__name__}: {e!s:.200} @ {tb.strip().splitlines()[-3].strip() if len(tb.splitlines()) > 3 else ""}')
     return ctx
 
 
